@@ -349,10 +349,7 @@ class Rule(
         for module in configuration.modules_to_check:
             parent_module_found = False
             for module_name in module_names:
-                if (
-                    module_name in module.identifier
-                    and module.identifier != module_name
-                ):
+                if module.identifier.startswith(f"{module_name}."):
                     parent_module_found = True
 
             if not parent_module_found:
